@@ -1140,6 +1140,11 @@ impl ProtocolState {
         false
     }
 
+    fn is_ping_in_queue(&self) -> bool {
+        let is_ping = |id: &u64| self.operations.get(id).map_or(false, |operation| matches!(&*operation.packet, MqttPacket::Pingreq(_)));
+        self.current_operation.as_ref().map_or(false, is_ping) || self.high_priority_operation_queue.iter().any(is_ping)
+    }
+
     fn is_connect_in_queue(&self) -> bool {
         // a CONNECT that is only partially encoded (current operation) has not been sent yet either
         self.current_operation.map_or(false, |id| self.is_connect_packet(id)) ||
@@ -1396,6 +1401,16 @@ impl ProtocolState {
                 self.state = ProtocolStateType::PendingDisconnect;
                 self.pending_write_completion_operations.push_back(operation.id);
             }
+            MqttPacket::Pingreq(_) => {
+                // The time the server has to answer runs from the transmission of the PINGREQ, not from the moment it was
+                // queued (it may have had to wait for an operation that was being written).  Regardless of ping timeout
+                // configuration, if we haven't heard anything by KeepAlive * 1.5, then close the connection
+                if let Some(settings) = &self.current_settings {
+                    let final_timeout = self.config.ping_timeout.min(Duration::from_millis(settings.server_keep_alive as u64 * 500));
+                    self.ping_timeout_timepoint = Some(add_duration_saturating(now, final_timeout));
+                }
+                self.pending_write_completion_operations.push_back(operation.id);
+            }
             _ => {
                 self.pending_write_completion_operations.push_back(operation.id);
             }
@@ -1529,19 +1544,18 @@ impl ProtocolState {
             }
         } else if let Some(next_ping) = &self.next_ping_timepoint {
             if &context.current_time >= next_ping {
-                debug!("[{} ms] service_keep_alive - next ping time reached, sending ping", self.elapsed_time_ms);
-                let ping = Box::new(MqttPacket::Pingreq(PingreqPacket{}));
-                let ping_op_id = self.create_operation(ping, None);
+                // a PINGREQ still waiting behind the operation that is being written is not doubled up
+                if !self.is_ping_in_queue() {
+                    debug!("[{} ms] service_keep_alive - next ping time reached, sending ping", self.elapsed_time_ms);
+                    let ping = Box::new(MqttPacket::Pingreq(PingreqPacket{}));
+                    let ping_op_id = self.create_operation(ping, None);
 
-                self.enqueue_operation(ping_op_id, ProtocolQueueType::HighPriority, ProtocolEnqueuePosition::Front);
+                    self.enqueue_operation(ping_op_id, ProtocolQueueType::HighPriority, ProtocolEnqueuePosition::Front);
+                }
+
+                // the PINGRESP deadline is armed when the PINGREQ has been written, see on_current_operation_fully_written
 
                 let server_keep_alive = self.current_settings.as_ref().unwrap().server_keep_alive as u64;
-
-                // Regardless of ping timeout configuration, if we haven't heard anything by KeepAlive * 1.5, then
-                // close the connection
-                let final_timeout = self.config.ping_timeout.min(Duration::from_millis(server_keep_alive * 500));
-                self.ping_timeout_timepoint = Some(context.current_time + final_timeout);
-
                 if server_keep_alive > 0 {
                     self.next_ping_timepoint = Some(context.current_time + Duration::from_secs(server_keep_alive));
                 }
